@@ -132,6 +132,8 @@ def check(ctx, case, k=3, max_nodes=1500):
             trig = ""
             if blamed == "disjunctive" and comp.disjunctive_incdec_trigger(case["problem"]):
                 trig = ":split-conditional-increase"  # a root cause of its own (known finding)
+            if blamed == "undefined_numeric" and _undefined_read_in_conditional_value(case["problem"]):
+                trig = ":read-in-conditional-effect-value"  # known finding
             raise Violation(
                 f"incomplete:{blamed}{trig}",
                 f"original plan {describe(steps)} is valid but the compiled problem ({label}) has no counterpart: {why}",
@@ -164,6 +166,20 @@ def _goal(ex, s):
         return ex.ref.goal(s)
     except Abstain:
         return False
+
+
+def _undefined_read_in_conditional_value(spec):
+    """some conditional effect's VALUE reads a numeric fluent that has no default (may be undefined)"""
+    undef = {f["name"] for f in spec["fluents"] if f["type"] != "bool" and f["type"][0] in ("int", "real") and f.get("default") is None}
+
+    def reads(e):
+        if isinstance(e, list) and e:
+            if e[0] == "fl" and e[1] in undef:
+                return True
+            return any(reads(x) for x in e[1:])
+        return False
+
+    return any(e.get("cond") is not None and reads(e["val"]) for a in spec["actions"] for e in a.get("eff", []))
 
 
 def spec_hash(spec):
